@@ -6,7 +6,8 @@ Record case := {
   c_id : N;
   c_service : string;       (* name of the extracted service the scenario exercises *)
   c_scenario : string;
-  c_race : bool             (* the Go race detector reported a data race *)
+  c_race : bool;            (* the Go race detector reported a data race (or the runtime aborted on concurrent map access) *)
+  c_hang : bool             (* the scenario did not finish: goroutines blocked for ever (a leaked / re-acquired lock) *)
 }.
 
 Definition service_ok (name : string) : bool :=
@@ -15,11 +16,17 @@ Definition service_ok (name : string) : bool :=
   | None => false
   end.
 
-(* model and implementation agree: a service the analysis accepts shows no race in its scenario *)
-Definition agree (c : case) : bool := implb (service_ok (c_service c)) (negb (c_race c)).
+(* the property on the observed run alone: no unsynchronised conflicting access was observed and
+   every operation finished (no lock was left held) *)
+Definition P_b (c : case) : bool := negb (c_race c) && negb (c_hang c).
 
-(* the property on the observed run alone *)
-Definition P_b (c : case) : bool := negb (c_race c).
+Definition service_known (name : string) : bool :=
+  existsb (fun '(n, _, _, _, _) => String.eqb n name) services.
+
+(* model and implementation agree: a service the analysis accepts (race free and lock balanced in
+   every interleaving, C17_tree_race_free_partial) shows neither a race nor a hang in its scenario;
+   a scenario naming a service that is not extracted never agrees *)
+Definition agree (c : case) : bool := implb (service_ok (c_service c)) (P_b c) && service_known (c_service c).
 
 Definition mismatches (cs : list case) : list N := failing_ids c_id agree cs.
 Definition violations (cs : list case) : list N := failing_ids c_id P_b cs.
